@@ -2390,7 +2390,12 @@ impl ModuleGraph {
       roots.iter().copied(),
       WalkOptions {
         follow_dynamic: true,
-        kind: self.graph_kind,
+        // a types only walk skips the code modules that have a types
+        // dependency, but lookups in the segment still go through them
+        kind: match self.graph_kind {
+          GraphKind::TypesOnly => GraphKind::All,
+          kind => kind,
+        },
         check_js: CheckJsOption::True,
         prefer_fast_check_graph: false,
       },
